@@ -10,6 +10,7 @@ func H_C06_Parameters() {
 	vCheck(len(enc) == 1+2*wc, "Parameters/size")
 	in := append(append([]byte{}, enc...), vBytes("suffix", vParam("sfx"))...)
 	d := NewParameters()
+	d.AddWordsFromBytesStream(vBytes("prev", 2*vParam("prev"))) // a reused receiver that already holds earlier words
 	n, err := d.Unmarshal(in)
 	vCheck(err == nil, "Parameters/unmarshal-ok")
 	vCheck(n == len(enc), "Parameters/consumed")
